@@ -84,9 +84,16 @@ def gen_hbrace(rnd):
     threads = [[(0, ('sync_timer',)), (0, ('conn_close',))]]
     if rnd.random() < 0.4:
         threads.append([(0, ('sync_timer',)), (0, ('conn_close',))])
+    nchan = rnd.choice([0, 1])
     if rnd.random() < 0.4:
+        nchan = 1
         threads.append([(1, ('declare', b'h')), (1, ('sync_timer',)), (1, ('publish', b'Ax', False))])
-    return dict(nchan=1, threads=threads, heartbeat=rnd.choice([2, 4, 60]))
+    if rnd.random() < 0.3:
+        # one tick later: the wire has been silent for a whole interval by then
+        threads[0].insert(0, (0, ('sync_timer',)))
+    # with no channel nothing has been written since the checker started: the tick that races
+    # with close() has a heartbeat to send
+    return dict(nchan=nchan, threads=threads, heartbeat=rnd.choice([2, 4, 60]))
 
 
 class Driver(concdrv.ConcMixin):
